@@ -11,7 +11,7 @@ for f in sorted(glob.glob(V+'/seeded/*/meta.json')):
 def rnd(k): return (int(k.split('-m')[1])+1)//2
 rounds=sorted(set(rnd(r['k']) for r in rows))
 out=["## 9. Seeded changes: which checks catch what\n",
-"%d property-breaking changes (14 per property in 7 rounds, and 2 more for ten of the properties in an 8th; %d..%d per property, %d rounds) were written by fresh sub-agents that were given\nonly the text of one property and a private scratch worktree of `/repo` - nothing from `/verif` (from round 2 on they\nalso got one-line descriptions of the earlier changes of their property, with the instruction to produce something\ndifferent: multi-step histories, map orders, aliasing, caches, cooperating sites, clauses not yet exercised). Each\nchange was verified independently (`tools/seed_verify.sh`): its demonstration passes on the unmodified tree, the\nrepository's own suite passes with the change, the demonstration fails with the change. They are stored under\n`seeded/<id>-m<k>/` (patch.diff, demo_test.go.txt, meta.json); none was ever applied to `/repo` itself (checks run\nagainst them through a scratch copy, `VERIF_REPO`). `tools/seed_all.sh` re-runs everything; this section is generated\nby `tools/mksection9.py`.\n" % (len(rows), 14, 16, len(rounds)),
+"%d property-breaking changes (14 per property in 7 rounds, and 2 more for seventeen of the properties in an 8th, delivered in two parts; %d..%d per property, %d rounds) were written by fresh sub-agents that were given\nonly the text of one property and a private scratch worktree of `/repo` - nothing from `/verif` (from round 2 on they\nalso got one-line descriptions of the earlier changes of their property, with the instruction to produce something\ndifferent: multi-step histories, map orders, aliasing, caches, cooperating sites, clauses not yet exercised). Each\nchange was verified independently (`tools/seed_verify.sh`): its demonstration passes on the unmodified tree, the\nrepository's own suite passes with the change, the demonstration fails with the change. They are stored under\n`seeded/<id>-m<k>/` (patch.diff, demo_test.go.txt, meta.json); none was ever applied to `/repo` itself (checks run\nagainst them through a scratch copy, `VERIF_REPO`). `tools/seed_all.sh` re-runs everything; this section is generated\nby `tools/mksection9.py`.\n" % (len(rows), 14, 16, len(rounds)),
 "| Round | Changes | Caught by the checks as they were at the time | Caught now (quick tier) |\n|---|---|---|---|"]
 for r in rounds:
     rr=[x for x in rows if rnd(x['k'])==r]
